@@ -563,4 +563,30 @@ pub fn run_c02(out: &mut Out, tier: &str, seed: u64) {
 pub fn run_c17(out: &mut Out, tier: &str, seed: u64) {
     tamper(out, tier, seed, false, true);
     crate::stream::tamper_stream(out, tier, seed, false, true);
+    { let mut rng = Rng::new(seed, "c17-unaligned"); unaligned_buffers(out, &mut rng); }
+}
+
+/// C17: the caller's message buffer is a window inside a larger allocation (any address, not only the start of a Vec): after a
+/// refused open every byte of the window is as it was or zero, and nothing outside the window is touched
+fn unaligned_buffers(out: &mut Out, rng: &mut Rng) {
+    let (k, n): ([u8; 32], [u8; 24]) = (rng.arr(), rng.arr());
+    let ((pka, ska), (pkb, skb)) = box_pairs(rng, 1)[0];
+    for mlen in [1usize, 2, 3, 7, 8, 9, 15, 16, 17, 31, 40] {
+        let m = rng.bytes(mlen);
+        let mut sbx = sodium::secretbox_easy(&m, &n, &k); sbx[3] ^= 0x10;
+        let mut bbx = sodium::box_easy(&m, &n, &pkb, &ska).unwrap(); let l = bbx.len(); bbx[l - 1] ^= 1;
+        let mut sealed = sodium::box_seal(&m, &pkb); sealed[40] ^= 2;
+        for off in 0..=9usize {
+            for (form, which) in [("secretbox.open_easy", 0), ("box.open_easy", 1), ("box.seal_open", 2)] {
+                out.search_evaluations += 1;
+                let mut backing = vec![SENT; off + mlen + 9];
+                let r = guard(|| match which { 0 => crypto_secretbox_open_easy(&mut backing[off..off + mlen], &sbx, &n, &k), 1 => crypto_box_open_easy(&mut backing[off..off + mlen], &bbx, &n, &pka, &skb), _ => crypto_box_seal_open(&mut backing[off..off + mlen], &sealed, &pkb, &skb) });
+                let rp = json!({"op":"open-into-window","form":form,"mlen":mlen,"offset":off,"key":hx(&k),"nonce":hx(&n),"secretbox":hx(&sbx)});
+                let w = &backing[off..off + mlen];
+                if !r.is_err() { out.hit(&format!("{}.window.not-refused", form), format!("mlen {} offset {} ({})", mlen, off, r.class()), rp.clone()); continue; }
+                if !(w.iter().all(|x| *x == SENT) || w.iter().all(|x| *x == 0)) { out.hit(&format!("{}.buffer-after-failed-open.window", form), format!("mlen {} at offset {} of a larger buffer: {} neither as it was nor zero", mlen, off, hx(w)), rp.clone()); }
+                if backing[..off].iter().any(|x| *x != SENT) || backing[off + mlen..].iter().any(|x| *x != SENT) { out.hit(&format!("{}.writes-outside-the-buffer", form), format!("mlen {} offset {}", mlen, off), rp.clone()); }
+            }
+        }
+    }
 }
